@@ -159,8 +159,18 @@ TYPES = {
 _GET = {'raw16': lambda r: r.take(16), 'nl': Rd.namelist, 'bool':
         lambda r: r.byte() != 0, 'u32': Rd.u32, 'str': Rd.str,
         'mpint': Rd.mpint}
-_PUT = {'raw16': bytes, 'nl': namelist, 'bool': lambda b: bytes([1 if b else 0]),
-        'u32': u32, 'str': sstr, 'mpint': mpint}
+class Raw(bytes):
+    """A field given as the exact bytes to put on the wire (length prefix
+    included): non-canonical encodings."""
+
+
+def _put(fn):
+    return lambda v: bytes(v) if isinstance(v, Raw) else fn(v)
+
+
+_PUT = {'raw16': _put(bytes), 'nl': _put(namelist),
+        'bool': _put(lambda b: bytes([1 if b else 0])),
+        'u32': _put(u32), 'str': _put(sstr), 'mpint': _put(mpint)}
 
 
 def schema_for(fam, name):
@@ -220,6 +230,7 @@ def recv_version(data, receiver):
 # MITM
 # ---------------------------------------------------------------------------
 
+FIELDWISE_MSGS = {'INIT', 'REPLY', 'GGRP'}
 BOUND_MSGS = {'VC', 'VS', 'IC', 'IS', 'INIT', 'REPLY', 'GREQ', 'GGRP',
               'PUBKEY', 'SECRET', 'DONE'}
 
@@ -271,11 +282,34 @@ def classify(msg):
         return 'harmless' if not rest else 'framing'
     try:
         payload, _ = unframe(msg.sent)
+        extra = False
     except Malformed:
-        return 'framing'
+        # several packets in place of one (a guessed packet following)?
+        try:
+            pktlen = struct.unpack('>I', msg.sent[:4])[0]
+            payload, _ = unframe(msg.sent[:4 + pktlen])
+            rest = msg.sent[4 + pktlen:]
+            while rest:
+                n = struct.unpack('>I', rest[:4])[0]
+                unframe(rest[:4 + n])
+                rest = rest[4 + n:]
+            extra = True
+        except (Malformed, struct.error):
+            return 'framing'
     if payload == msg.payload:
-        return 'harmless'           # only the random padding differs
-    return 'bound' if msg.name in BOUND_MSGS else 'framing'
+        # only the random padding differs / an extra packet was inserted
+        return 'framing' if extra else 'harmless'
+    if msg.name not in BOUND_MSGS:
+        return 'framing'
+    if msg.name in FIELDWISE_MSGS and msg.fields is not None and not extra:
+        # RFC 4253 8: the hash covers the VALUES e, f, p, g (as mpint);
+        # another encoding of the same values alters nothing that is hashed
+        try:
+            if parse_fields(msg.schema, payload) == msg.fields:
+                return 'recoded'
+        except Malformed:
+            pass
+    return 'bound'
 
 
 class Mitm:
@@ -610,7 +644,135 @@ def e_secret(kind, variant):
     return e_field('enc', val)
 
 
-def concretise(ed, names, variant=0):
+class NotApplicable(Exception):
+    """The abstract edit has no counterpart in this key exchange family
+    (e.g. mpint encodings in a family whose values travel as strings)."""
+
+
+# ---- re-encodings ------------------------------------------------------
+
+def _mp_body(n):
+    return mpint(n)[4:]
+
+
+def _raw_lp(body):
+    return Raw(u32(len(body)) + body)
+
+
+def mp_negative(n):
+    """The bytes of n without the sign octet (or sign-extended with 0xff if
+    it has none): per RFC 4251 they denote a negative number."""
+    b = _mp_body(n)
+    return _raw_lp(b[1:]) if b[:1] == b'\0' and len(b) > 1 else \
+        _raw_lp(b'\xff' + b)
+
+
+MP_OPS = [
+    ('neg', mp_negative),
+    ('lead_zero', lambda n: _raw_lp(b'\0' + _mp_body(n))),
+    ('lead_zero2', lambda n: _raw_lp(b'\0\0' + _mp_body(n))),
+    ('sign_ext_ff', lambda n: _raw_lp(b'\xff' + _mp_body(n))),
+    ('empty', lambda n: _raw_lp(b'')),
+    ('len_plus1', lambda n: _raw_lp(_mp_body(n) + b'\x01')),
+    ('len_minus1', lambda n: _raw_lp(_mp_body(n)[:-1])),
+]
+STR_OPS = [
+    ('empty', lambda b: b''),
+    ('len_plus1', lambda b: b + b'\0'),
+    ('len_minus1', lambda b: b[:-1]),
+]
+
+
+def _upper(names):
+    for i, n in enumerate(names):
+        if n.upper() != n:
+            return names[:i] + [n.upper()] + names[i + 1:]
+    return names + [b'X']
+
+
+NL_OPS = [
+    ('trailing_comma', lambda l: _raw_lp(b','.join(l) + b',')),
+    ('leading_comma', lambda l: _raw_lp(b',' + b','.join(l))),
+    ('duplicate', lambda l: l + l[:1] if l else [b'en', b'en']),
+    ('upper', _upper),
+    ('nul', lambda l: [l[0][:1] + b'\0' + l[0][1:]] + l[1:] if l
+     else [b'\0']),
+    ('empty_list' , lambda l: [] if l else [b'en']),
+]
+
+
+def _guess_packet(fam, right):
+    """A key exchange packet as it would follow first_kex_packet_follows."""
+    if (fam in ('dh', 'gex')) == right:
+        body = mpint(int.from_bytes(os.urandom(200), 'big') + 2)
+    else:
+        body = sstr(os.urandom(32))
+    return frame(bytes([34 if fam == 'gex' and right else 30]) + body)
+
+
+def reencoding_edits(name, fam):
+    """Every re-encoding / boundary edit of every field of message `name`:
+    list of MITM edits (label, fn built on the value travelling then)."""
+    schema = schema_for(fam, name)
+    out = []
+
+    def add(field, op, valfn):
+        out.append({'msg': name, 'label': f'{name}.{field}:{op}',
+                    'fn': e_field(field, lambda cur, m, _, f=valfn: f(cur))})
+    for field, kind in schema or []:
+        if kind == 'mpint':
+            for op, f in MP_OPS:
+                add(field, op, f)
+        elif kind == 'str':
+            for op, f in STR_OPS:
+                add(field, op, f)
+        elif kind == 'nl':
+            for op, f in NL_OPS:
+                add(field, op, f)
+        elif kind == 'bool':
+            add(field, 'true', lambda cur: True)
+            add(field, '0xff', lambda cur: Raw(b'\xff'))
+            for right in (True, False):
+                def fn(msg, mitm, right=right):
+                    f = dict(msg.fields)
+                    f[field] = True
+                    return [msg.rebuild(f), _guess_packet(mitm.fam, right)]
+                out.append({'msg': name, 'fn': fn, 'label':
+                            f'{name}.{field}:true+'
+                            f'{"right" if right else "wrong"}_guess_packet'})
+        elif kind == 'u32' and name != 'GREQ':
+            add(field, 'one', lambda cur: cur + 1)
+    if name == 'GREQ':
+        def req(op, fn):
+            def ed(msg, _):
+                f = dict(msg.fields)
+                fn(f)
+                return msg.rebuild(f)
+            out.append({'msg': name, 'fn': ed, 'label': f'GREQ:{op}'})
+        req('min>n', lambda f: f.update(min=f['n'] + 1))
+        req('n>max', lambda f: f.update(n=f['max'] + 1))
+        req('n<min', lambda f: f.update(n=512))
+        req('max<min', lambda f: f.update(max=f['min'] - 1))
+        req('all_zero', lambda f: f.update(min=0, n=0, max=0))
+        req('huge', lambda f: f.update(n=0xffffffff, max=0xffffffff))
+    if name == 'GGRP':
+        def grp(op, fn):
+            def ed(msg, _):
+                f = dict(msg.fields)
+                fn(f)
+                return msg.rebuild(f)
+            out.append({'msg': name, 'fn': ed, 'label': f'GGRP:{op}'})
+        grp('g=0', lambda f: f.update(g=0))
+        grp('g=1', lambda f: f.update(g=1))
+        grp('g=p-1', lambda f: f.update(g=f['p'] - 1))
+        grp('p_even', lambda f: f.update(p=f['p'] - 1))
+        grp('p_times_3', lambda f: f.update(p=f['p'] * 3))
+        grp('p_below_minimum', lambda f: f.update(p=2 ** 255 - 19))
+        grp('p=g', lambda f: f.update(p=f['g']))
+    return out
+
+
+def concretise(ed, names, variant=0, fam=None):
     """Abstract edit of specs/Handshake (dict msg, field, val as printed by
     TLC) -> MITM edit.  names: category -> {abstract name: real name}."""
     m, f, v = ed['msg'], ed['field'], ed['val']
@@ -638,8 +800,21 @@ def concretise(ed, names, variant=0):
         fn = e_rest(variant)
     elif f == 'req':
         fn = e_gexreq(variant)
+    elif f == 'grp' and 'gNeg' in v:
+        fn = e_field('p', lambda cur, msg, _: mp_negative(cur))
     elif f == 'grp':
         fn = e_group('alt' if 'gAlt' in v else 'bad', variant)
+    elif f == 'menc':
+        if fam not in ('dh', 'gex'):
+            raise NotApplicable(label)
+        fld = {'INIT': 'e', 'REPLY': 'f',
+               'GGRP': ['p', 'g'][variant % 2]}[m]
+        op = MP_OPS[1 + variant % 2][1]
+        fn = e_field(fld, lambda cur, msg, _: op(cur))
+    elif f in ('e', 'f') and '"neg"' in v:
+        if fam not in ('dh', 'gex'):
+            raise NotApplicable(label)
+        fn = e_field(f, lambda cur, msg, _: mp_negative(cur))
     elif f in ('e', 'f'):
         fn = e_pub(f, 'invalid' if 'invalid' in v else 'junk', variant)
     elif f == 'ks':
